@@ -289,6 +289,9 @@ class World:
 
     # -- building
     def abspath(self, rel):
+        # "@SELF" inside a relative path stands for the root's own absolute path without the leading separator: the
+        # layout `rsync -R` / `cp --parents` leave when a volume is mirrored into itself (<root>/mirror/<root>/...)
+        rel = rel.replace("@SELF", self.root.lstrip(os.sep))
         return self.root if rel in (".", "") else os.path.join(self.root, rel)
 
     def build_tree(self, tree):
@@ -590,7 +593,18 @@ def _effect(kind, rel, nbytes=0, apply=None, partial=None):
     seq = len(cs.effects)
     cs.clock.effect()
     k = cs.kill
-    if k is not None and k["at"] == seq:
+    hit = False
+    if k is not None:
+        if "when" in k:
+            # kill at the n-th effect of a given kind on a path containing a given text (e.g. the first replace of a
+            # manifest), for scenarios that need one particular crash window rather than a sampled one
+            wn = k["when"]
+            if kind == wn["kind"] and wn.get("contains", "") in rel:
+                k["_seen"] = k.get("_seen", 0) + 1
+                hit = k["_seen"] == wn.get("nth", 1)
+        else:
+            hit = k["at"] == seq
+    if hit:
         mode = k["mode"]
         if mode == "before":
             cs.effects.append((seq, kind + "!killed-before", rel, 0))
@@ -1312,6 +1326,8 @@ def _session_main(world, cmd_rfd, wfd):
 # --- environment operations (parent side, real os) ------------------------------------------------------------
 def _expand(world, token):
     if isinstance(token, str):
+        if "@SELF" in token:
+            token = token.replace("@SELF", world.root.lstrip(os.sep))
         if token.startswith("@R"):
             sp = world.spec.get("root_spelling", "abs")
             rest = token[2:]
@@ -1446,6 +1462,18 @@ def apply_env(world, op):
             R_makedirs(os.path.dirname(dst), exist_ok=True)
             os.link(src, dst)
             _stamp(world, os.path.dirname(dst))
+            fired = True
+    elif kind == "chmod":
+        # permission bits of one file, or (tree=True) of every regular file below a directory (chmod -R a-w on files)
+        mode = op.get("mode", 0o444)
+        targets = []
+        if op.get("tree") and os.path.isdir(p):
+            for d, subs, files in os.walk(p):
+                targets += [os.path.join(d, f) for f in sorted(files) if not os.path.islink(os.path.join(d, f))]
+        elif os.path.isfile(p) and not os.path.islink(p):
+            targets = [p]
+        for t in targets:
+            os.chmod(t, mode)
             fired = True
     elif kind == "copy_tree":
         # `cp -a src dst`: a byte-identical copy (own inodes) with the same modification times, e.g. a camera card with
